@@ -550,7 +550,10 @@ function runShard(info, thorough) {
       try {
         if (MODE === 'C14') {
           if (res2[i].panic) { rep.machineryErrors.push('compiler panicked on the printed text of ' + cs.name); return }
-          exploreEquivalence(cs, bundle, D.loadBundle(res2[i].outputs.groups.ok), rep, thorough)
+          let printedBundle
+          // the original loads: a printed text whose bundle does not is not an inverse of the parse
+          try { printedBundle = D.loadBundle(res2[i].outputs.groups.ok) } catch (e) { rep.violation(`C14|printed-bundle-does-not-load|${cs.name.replace(/\(.*/, '')}`, `the code generated for ${JSON.stringify(cs.__src)} loads, the code generated for its printed text ${JSON.stringify(cs.__printed)} does not: ${e} (${cs.name})`, { engine: 'c14u', case: cs.name, initial: 0, history: [] }); return }
+          exploreEquivalence(cs, bundle, printedBundle, rep, thorough)
         } else if (MODE === 'C04') exploreConformance(cs, bundle, res[i].outputs.groups.ok, rep)
         else if (cs.slotCase) exploreSlotCase(cs, bundle, rep, thorough)
         else exploreCase(cs, bundle, rep, true)
@@ -584,7 +587,7 @@ function replayOne(rec) {
     const scripts = Object.keys(cs.scripts).map((p) => [p, cs.scripts[p]])
     const r1 = C.compileBatch([{ id: 0, files, scripts, want: ['groups', 'stringify'] }], 1)[0]
     const r2 = C.compileBatch([{ id: 0, files: files.map((f) => [f[0], r1.outputs['stringify:' + f[0]].ok]), scripts, want: ['groups'] }], 1)[0]
-    const once = () => [r1, r2].map((r) => { const comp = D.create(D.loadBundle(r.outputs.groups.ok), MAIN, INITIAL[rec.initial], undefined); for (const ops of rec.history) applyToInstance(comp, { ops }); return D.serialize(comp.shadowRoot) })
+    const once = () => [r1, r2].map((r) => { let b; try { b = D.loadBundle(r.outputs.groups.ok) } catch (e) { return 'does not load: ' + e } const comp = D.create(b, MAIN, INITIAL[rec.initial], undefined); for (const ops of rec.history) applyToInstance(comp, { ops }); return D.serialize(comp.shadowRoot) })
     const a = once(); const b = once()
     return { deterministic: key(a) === key(b), failure: a[0] === a[1] ? null : `original ${a[0]} vs re-printed ${a[1]}` }
   }
